@@ -197,6 +197,32 @@ func checkHugeSeg(c hugeSegCase) *harness.Fail {
 			return harness.Failf("C12|UpdateSidx|subsegment_duration differs from the summed sample durations of the reference track", "reference %d: %d, samples last %d; %s", i, r.Duration, 2*uint64(c.Durs[i]), desc())
 		}
 	}
+	// the written index read back: the same virtual file with the sidx box behind the init segment, decoded without
+	// flags: the references alone (and the styp boxes, when present) must lead to the same segments
+	vf2 := &partsFile{parts: []part{{data: append(append([]byte(nil), ib.Bytes()...), sb.Bytes()...)}}}
+	vf2.parts = append(vf2.parts, vf.parts[1:]...)
+	f2, err := mp4.DecodeFile(vf2, mp4.WithDecodeMode(mp4.DecModeLazyMdat))
+	if err != nil {
+		return harness.Failf("C12|DecodeFile(lazy)|error on a well-formed file with large segments", "with the index written by UpdateSidx: %v; %s", err, desc())
+	}
+	if len(f2.Segments) != n {
+		return harness.Failf("C12|DecodeFile|number of segments differs|rule=sidx", "%d segments, the index written by UpdateSidx (references %+v) describes %d; %s", len(f2.Segments), sx.Refs, n, desc())
+	}
+	at := uint64(ib.Len() + sb.Len())
+	for i, sg := range f2.Segments {
+		if sg.StartPos != at {
+			return harness.Failf("C12|DecodeFile|MediaSegment.StartPos is not the first byte of the segment|rule=sidx", "segment %d: StartPos %d, expected %d; %s", i, sg.StartPos, at, desc())
+		}
+		at += segSize[i]
+	}
+	if f2.Sidx == nil || len(f2.Sidx.SidxRefs) != n {
+		return harness.Failf("C12|DecodeFile|top-level sidx not kept on the file", "%s", desc())
+	}
+	for i, r := range f2.Sidx.SidxRefs {
+		if uint64(r.ReferencedSize) != segSize[i] || r.SubSegmentDuration != 2*c.Durs[i] {
+			return harness.Failf("C12|DecodeFile|sidx reference read back differs from the one written", "reference %d: %+v, written size %d duration %d; %s", i, r, segSize[i], 2*c.Durs[i], desc())
+		}
+	}
 	wantEPT := uint64(0)
 	if c.NonZeroEPT {
 		wantEPT = c.Start
